@@ -264,6 +264,26 @@ def run_case(ctx, case):
                   "armodel|residual(sim(e))", case,
                   lambda: {"t": int(badr[0]), "e": float(e0[badr[0]]),
                            "got": float(r[badr[0]]), "tol": float(tolr[badr[0]])})
+    # a series held in an integer array (counts, rounded levels) with the mean left to
+    # its default: the same numbers as the float series
+    if stable and n >= 2 and not explicit:
+        yi = np.round(np.where(np.isfinite(y), y, 0.0) * 4).astype(np.int64)
+        if np.abs(yi).max() < 2 ** 40 and float(np.mean(yi)) != float(int(np.mean(yi))):
+            ctx.tag("integer-series-default-mean")
+            ctx.api("armodel_residual", 2)
+            try:
+                ri = call(ar.armodel_residual, params, yi[(n % 2):].astype(
+                    [np.int64, np.int32, np.int16][n % 3] if np.abs(yi).max() < 2 ** 15
+                    else np.int64))
+                rf = call(ar.armodel_residual, params, yi[(n % 2):].astype(np.float64))
+                ctx.check("residual.integer-series", same_result(ri, rf, 1e-12, 1e-12),
+                          "armodel_residual|integer-series-differs-from-float-series",
+                          case, lambda: {"int": np.asarray(ri)[:4], "float":
+                                         np.asarray(rf)[:4], "mean": float(np.mean(yi))})
+            except Exception as ex:
+                ctx.check("residual.integer-series", False,
+                          "armodel_residual|raises-on-integer-series", case,
+                          {"exc": repr(ex)[:200]})
     # residual definition on an arbitrary series with NaN + sim(residual(y)) == y
     yin = y.copy()
     if n > 3 and case.get("nan_inputs", True) and stable:
@@ -332,16 +352,20 @@ def run_reject(ctx, case):
     ctx.tag("reject:order" if what == "order" else "reject:nan-param")
     for nm, fn in (("armodel_sim", ar.armodel_sim), ("armodel_residual",
                                                      ar.armodel_residual)):
-        ctx.api(nm)
-        try:
-            r = call(fn, phi, e.copy(), **kw)
-            ctx.check("reject." + what, False, f"{nm}|accepts-invalid-{what}", case,
-                      lambda: {"returned": np.asarray(r)[:5]})
-        except ValueError:
-            ctx.check("reject." + what, True)
-        except Exception as ex:
-            ctx.check("reject." + what, False, f"{nm}|wrong-exception-{what}", case,
-                      {"exc": repr(ex)})
+        # the caller catches the error and tries again (same arguments, then other
+        # innovations): rejected every time
+        for attempt, ee in enumerate((e, e, e[::-1].copy() if len(e) else e)):
+            ctx.api(nm)
+            try:
+                r = call(fn, phi, ee.copy(), **kw)
+                ctx.check("reject." + what, False, f"{nm}|accepts-invalid-{what}" +
+                          ("" if attempt == 0 else "|on-repeated-call"), case,
+                          lambda: {"returned": np.asarray(r)[:5], "attempt": attempt + 1})
+            except ValueError:
+                ctx.check("reject." + what, True)
+            except Exception as ex:
+                ctx.check("reject." + what, False, f"{nm}|wrong-exception-{what}", case,
+                          {"exc": repr(ex)})
 
 
 def run(ctx):
